@@ -173,65 +173,189 @@ func (a *FnA) IfEdgesB(pattern string, holds bool, pre Bind, filter func(Bind) b
 	return
 }
 
-// reach computes the blocks reachable from start without using removed edges.
-// It is path-sensitive for boolean flags: when a block ends in an If whose
-// condition is (the negation of) a phi of boolean constants defined in that
-// same block, only the successor selected by the constant flowing in from the
-// predecessor just traversed is followed.
-func reach(start *ssa.BasicBlock, removed map[Edge]bool) map[*ssa.BasicBlock]bool {
-	type st struct {
-		b    *ssa.BasicBlock
-		pred *ssa.BasicBlock
+// pathFacts remembers, along one explored path, the constant a phi received
+// on the edge just traversed (boolean constants and nil). It makes the CFG
+// walks path-sensitive for the flag idioms the repository uses
+// (`found := false ... found = true ... if !found`, `ch = nil ... if ch != nil`).
+type pathFacts map[*ssa.Phi]string // "true" | "false" | "nil"
+
+func (f pathFacts) key() string {
+	var parts []string
+	for p, v := range f {
+		parts = append(parts, p.Name()+"="+v)
 	}
-	seen := map[*ssa.BasicBlock]bool{start: true}
-	seenSt := map[st]bool{{start, nil}: true}
-	work := []st{{start, nil}}
-	for len(work) > 0 {
-		cur := work[len(work)-1]
-		work = work[:len(work)-1]
-		b := cur.b
-		only := -1
-		if cur.pred != nil && len(b.Instrs) > 0 {
-			if ifi, ok := b.Instrs[len(b.Instrs)-1].(*ssa.If); ok {
-				neg := false
-				c := ifi.Cond
-				for {
-					if u, ok := c.(*ssa.UnOp); ok && u.Op == token.NOT {
-						neg = !neg
-						c = u.X
-						continue
-					}
-					break
+	sort.Strings(parts)
+	return strings.Join(parts, ",")
+}
+
+// enter computes the facts after traversing edge from -> to.
+func (f pathFacts) enter(from, to *ssa.BasicBlock) pathFacts {
+	nf := pathFacts{}
+	for k, v := range f {
+		nf[k] = v
+	}
+	for _, in := range to.Instrs {
+		ph, ok := in.(*ssa.Phi)
+		if !ok {
+			break
+		}
+		for pi, pred := range to.Preds {
+			if pred != from {
+				continue
+			}
+			e := ph.Edges[pi]
+			// strip interface/pointer conversions
+			for {
+				if mi, ok := e.(*ssa.MakeInterface); ok {
+					e = mi.X
+					continue
 				}
-				if phi, ok := c.(*ssa.Phi); ok && phi.Block() == b {
-					for k, p := range b.Preds {
-						if p == cur.pred {
-							if cst, ok := phi.Edges[k].(*ssa.Const); ok && cst.Value != nil && cst.Value.Kind() == constant.Bool {
-								v := constant.BoolVal(cst.Value) != neg
-								if v {
-									only = 0
-								} else {
-									only = 1
-								}
-							}
-						}
+				if ct, ok := e.(*ssa.ChangeType); ok {
+					e = ct.X
+					continue
+				}
+				break
+			}
+			switch x := e.(type) {
+			case *ssa.Const:
+				switch {
+				case x.Value == nil:
+					if isNilable(x.Type()) {
+						nf[ph] = "nil"
+					} else {
+						delete(nf, ph)
 					}
+				case x.Value.Kind() == constant.Bool:
+					nf[ph] = fmt.Sprint(constant.BoolVal(x.Value))
+				default:
+					delete(nf, ph)
+				}
+			case *ssa.Phi:
+				if v, known := f[x]; known {
+					nf[ph] = v
+				} else if x != ph {
+					delete(nf, ph)
+				}
+			default:
+				if isNilable(ph.Type()) {
+					nf[ph] = "nonnil?" // unknown, but recorded as not-known-nil
+					delete(nf, ph)
+				} else {
+					delete(nf, ph)
 				}
 			}
 		}
-		for k, s := range b.Succs {
-			if only >= 0 && k != only {
+	}
+	return nf
+}
+
+func isNilable(t types.Type) bool {
+	switch t.Underlying().(type) {
+	case *types.Pointer, *types.Chan, *types.Map, *types.Slice, *types.Interface, *types.Signature:
+		return true
+	}
+	return false
+}
+
+// decide returns the only feasible successor index of block b under facts f, or -1.
+func (f pathFacts) decide(b *ssa.BasicBlock) int {
+	if len(b.Instrs) == 0 {
+		return -1
+	}
+	ifi, ok := b.Instrs[len(b.Instrs)-1].(*ssa.If)
+	if !ok {
+		return -1
+	}
+	neg := false
+	c := ifi.Cond
+	for {
+		if u, ok := c.(*ssa.UnOp); ok && u.Op == token.NOT {
+			neg = !neg
+			c = u.X
+			continue
+		}
+		break
+	}
+	truth := func(v bool) int {
+		if v != neg {
+			return 0
+		}
+		return 1
+	}
+	switch x := c.(type) {
+	case *ssa.Phi:
+		switch f[x] {
+		case "true":
+			return truth(true)
+		case "false":
+			return truth(false)
+		}
+	case *ssa.BinOp:
+		if x.Op != token.EQL && x.Op != token.NEQ {
+			return -1
+		}
+		var ph *ssa.Phi
+		var other ssa.Value
+		if p, ok := x.X.(*ssa.Phi); ok {
+			ph, other = p, x.Y
+		} else if p, ok := x.Y.(*ssa.Phi); ok {
+			ph, other = p, x.X
+		}
+		if ph == nil {
+			return -1
+		}
+		if k, ok := other.(*ssa.Const); ok && k.Value == nil && f[ph] == "nil" {
+			return truth(x.Op == token.EQL)
+		}
+	}
+	return -1
+}
+
+// reach computes the blocks reachable from start without using removed edges,
+// exploring paths with pathFacts (see above).
+func reach(start *ssa.BasicBlock, removed map[Edge]bool) map[*ssa.BasicBlock]bool {
+	type st struct {
+		b *ssa.BasicBlock
+		f pathFacts
+	}
+	seen := map[*ssa.BasicBlock]bool{start: true}
+	seenSt := map[string]bool{}
+	work := []st{{start, pathFacts{}}}
+	for len(work) > 0 {
+		cur := work[len(work)-1]
+		work = work[:len(work)-1]
+		k := fmt.Sprintf("%d/%s", cur.b.Index, cur.f.key())
+		if seenSt[k] {
+			continue
+		}
+		seenSt[k] = true
+		if len(seenSt) > 50000 {
+			// give up on path sensitivity: plain CFG reachability (over-approximation)
+			plain := map[*ssa.BasicBlock]bool{start: true}
+			w2 := []*ssa.BasicBlock{start}
+			for len(w2) > 0 {
+				b := w2[len(w2)-1]
+				w2 = w2[:len(w2)-1]
+				for si, s := range b.Succs {
+					if removed[Edge{b, si}] || plain[s] {
+						continue
+					}
+					plain[s] = true
+					w2 = append(w2, s)
+				}
+			}
+			return plain
+		}
+		only := cur.f.decide(cur.b)
+		for si, s := range cur.b.Succs {
+			if only >= 0 && si != only {
 				continue
 			}
-			if removed[Edge{b, k}] {
+			if removed[Edge{cur.b, si}] {
 				continue
 			}
-			n := st{s, b}
-			if !seenSt[n] {
-				seenSt[n] = true
-				seen[s] = true
-				work = append(work, n)
-			}
+			seen[s] = true
+			work = append(work, st{s, cur.f.enter(cur.b, s)})
 		}
 	}
 	return seen
@@ -1059,4 +1183,13 @@ func fieldReads(w *World, fns []*ssa.Function, typ, field string) int {
 		}
 	}
 	return n
+}
+
+// lastField names the struct field an address designates ("pkg.Type.field"),
+// or "" when the address is not a field address.
+func lastField(addr ssa.Value) string {
+	if fa, ok := addr.(*ssa.FieldAddr); ok {
+		return TypeName(fa.X.Type()) + "." + fieldName(fa.X.Type(), fa.Field)
+	}
+	return ""
 }
